@@ -303,7 +303,8 @@ class Case:
 
 
 class LoopSpec:
-    def __init__(self, inv, fingerprint=None, shapes=None, unroll=False, extra_writes=(), hints=None):
+    def __init__(self, inv, fingerprint=None, shapes=None, unroll=False, extra_writes=(), hints=None, ghost_entry=None):
+        self.ghost_entry = ghost_entry  # (eng, state): ghost assignments made just before the loop is entered
         self.hints = hints              # (L) -> instances of separately proved lemma schemas, assumed at the head
         self.inv = inv                  # (L) -> list[(name, z3 Bool)]
         self.fingerprint = fingerprint  # substring of the loop header source
@@ -317,7 +318,7 @@ class Contract:
 
     def __init__(self, qualname, params, requires=None, cases=None, ensures=None, result=None,
                  mutates=(), loops=None, decreases=None, locals=None, trusted=False, raises=(),
-                 self_modifies=None, note=''):
+                 self_modifies=None, note='', definitions=None):
         """
         qualname: 'pkg.module:Class.func'
         params:   ordered dict name -> Shape (ObjShape for self)
@@ -491,7 +492,7 @@ class Engine:
         self.reach = {}         # fn -> list of pcs of normal exits (for vacuity probes)
         self.reach_lines = {}   # fn -> return line of each of those exits
         self.assumed = set()    # trusted contracts used at call sites
-        self.builtin_writes = {'print': ['$out']}
+        self.builtin_writes = {'print': ['$out'], 'yield': ['$yielded']}
         self.inline_ok = set()   # qualnames of straight-line helpers executed inline   # ghost variables a builtin updates (for loop write sets)
         self.stdout_events = []
         from . import builtins as B
@@ -509,7 +510,7 @@ class Engine:
         return self._verify(qualname, con, {}, '')
 
     def _verify(self, qualname, con, variant, vtag):
-        node, info, src = self.src.function(qualname)
+        node, info, src = self.src.function(qualname.split('#')[0])     # 'q#tag': a second contract for the same function
         if info not in self.functions:
             self.functions.append(info)
         self.cur = FnCtx(self, con, node, qualname, src)
@@ -726,6 +727,14 @@ class Engine:
     def st_Expr(self, s, st):
         if isinstance(s.value, ast.Constant):
             return [('next', st, None)]  # docstring
+        if isinstance(s.value, ast.Yield):
+            # generator: the yielded value is appended to the ghost output sequence $yielded
+            v = self.eval(s.value.value, st)
+            cur = st.env.get('$yielded')
+            if cur is None:
+                raise Unsupported('%s: yield without a ghost $yielded sequence in the contract' % self.cur.qualname)
+            st.env['$yielded'] = self.list_append(cur, v, st)
+            return [('next', st, None)]
         self.eval(s.value, st, stmt=True)
         return [('next', st, None)]
 
@@ -908,6 +917,8 @@ class Engine:
                 names = [alias.get(x, x) for x in names]
                 if '*' in names or alias.get(payload, payload) in names or 'Exception' in names:
                     handled = True
+                    if h.name:
+                        s2.env[h.name] = PObj('builtins:exception', {'reason': fresh(TStr, 'exc_reason'), 'kind': zstr(str(payload))})
                     outs.extend(self.exec_block(h.body, s2))
                     break
             if not handled:
@@ -940,6 +951,11 @@ class Engine:
                 rng = (self.as_int(a[0]), self.as_int(a[1]))
             else:
                 raise Unsupported('range with step')
+            if spec is not None and spec.unroll:
+                lo_s, hi_s = simp(rng[0]), simp(rng[1])
+                if not (z3.is_int_value(lo_s) and z3.is_int_value(hi_s)):
+                    raise Unsupported('unroll of a range with symbolic bounds')
+                return self._for_unrolled(s, st, PList([zint(k) for k in range(lo_s.as_long(), hi_s.as_long())]), None, s.target)
         if mode == 'seq':
             seq = self.eval(seq_expr, st)
             if isinstance(seq, PObj) and seq.cls == 'builtins:file':
@@ -1040,6 +1056,8 @@ class Engine:
             return None
 
         for n in self._nodes_reaching_back_edge(body):
+            if isinstance(n, ast.Yield):
+                res.add(('$yielded',))
             if isinstance(n, ast.Assign):
                 for t in n.targets:
                     note(t)
@@ -1176,6 +1194,8 @@ class Engine:
                   seq_path=None, file_var=None):
         fc = self.cur
         lid = fc.loop_id(s)
+        if spec.ghost_entry is not None:
+            spec.ghost_entry(self, st)
         pre_env = dict(st.env)
         writes = self._written(s.body, st)
         # a write through a view is a write to the container it views
@@ -1273,6 +1293,9 @@ class Engine:
                     return
             if tgt.id in fc.con.locals:
                 shp = fc.con.locals[tgt.id]
+                if isinstance(v, ZV) and v.pyval == 'EMPTY_COUNTER' and isinstance(shp, TDict):
+                    from .builtins import empty_dict
+                    v = ZV(shp, empty_dict(shp))
                 try:
                     if not isinstance(shp, ObjShape):
                         v = unbox(box(v, shp), shp)
@@ -1336,8 +1359,7 @@ class Engine:
                 return ZV(TF, T.F_ZERO, c)
             if c == 1.0:
                 return ZV(TF, T.F_ONE, c)
-            k = z3.Const('flit_%s' % repr(c).replace('.', '_').replace('-', 'm').replace('+', 'p'), T.F)
-            return ZV(TF, k, c)
+            return ZV(TF, T.float_lit(c), c)
         raise Unsupported('constant %r' % (c,))
 
     def eval(self, e, st, stmt=False):
@@ -1371,6 +1393,8 @@ class Engine:
             return PFun('global', imp)
         if e.id in self.builtins:
             return PFun('builtin', e.id)
+        if e.id in ('bytes', 'str', 'int', 'float', 'dict', 'list'):
+            return PModule(e.id)          # a builtin type used as a namespace (bytes.fromhex)
         raise Unsupported('%s: unknown name %s (line %d)' % (self.cur.qualname, e.id, e.lineno))
 
     def ev_Tuple(self, e, st):
@@ -1416,6 +1440,10 @@ class Engine:
         if isinstance(e.op, ast.USub):
             if isinstance(v, ZV) and v.shape == TInt:
                 return ZV(TInt, simp(-v.term), -v.pyval if v.pyval is not None else None)
+            if isinstance(v, ZV) and v.shape == TF:
+                if v.pyval is not None:
+                    return self.const(-v.pyval)
+                return ZV(TF, T.fsub(T.F_ZERO, v.term))
         raise Unsupported('unary %s' % type(e.op).__name__)
 
     def ev_BoolOp(self, e, st):
